@@ -10,11 +10,12 @@
  * -> `res=ok reads=ok:<hex>|wouldblock|err,...`
  *
  * The write adapter, driven the way the threaded client's connected loop drives its stream:
- * `ws.write chunks=<hex>,<hex>,... wplan=a<n>|b|e,...`
+ * `ws.write chunks=<hex>,<hex>,... wplan=a<n>|b|i|e,...`
  *   chunks: what the engine produces, one service call each; every chunk is offered until the stream has taken all
  *           of it (a would-block result means "offer the same remainder again"), then the stream is flushed until
  *           the flush succeeds (at most 64 attempts per step)
- *   wplan:  how the socket takes the successive `write` calls made on it: accept at most <n> bytes, would block, fail
+ *   wplan:  how the socket takes the successive `write` calls made on it: accept at most <n> bytes, would block (b),
+ *           is interrupted (i), fails (e)
  * -> `res=ok calls=w:<n>|w:b|w:e|f:ok|f:b|f:e,... msgs=<count> payload=<hex>`
  *   calls: every call made on the adapter and its result; msgs/payload: what a server decodes from the bytes the
  *   socket accepted - the binary messages and the concatenation of their payloads
@@ -36,7 +37,7 @@ struct ScriptedOut {
     written: Vec<u8>,
 }
 
-enum WriteStep { Accept(usize), Block, Error }
+enum WriteStep { Accept(usize), Block, Interrupt, Error }
 
 impl Read for ScriptedSocket {
     fn read(&mut self, buf: &mut [u8]) -> std::io::Result<usize> {
@@ -66,6 +67,7 @@ impl Write for ScriptedSocket {
                 Ok(k)
             }
             Some(WriteStep::Block) => Err(std::io::Error::from(std::io::ErrorKind::WouldBlock)),
+            Some(WriteStep::Interrupt) => Err(std::io::Error::from(std::io::ErrorKind::Interrupted)),
             Some(WriteStep::Error) => Err(std::io::Error::from(std::io::ErrorKind::BrokenPipe)),
         }
     }
@@ -135,6 +137,7 @@ pub(crate) fn cmd_ws_write(head: &str) -> Result<String, String> {
     let mut plan = std::collections::VecDeque::new();
     for t in get(&kv, "wplan").unwrap_or("").split(',').filter(|s| !s.is_empty()) {
         if t == "b" { plan.push_back(WriteStep::Block); }
+        else if t == "i" { plan.push_back(WriteStep::Interrupt); }
         else if t == "e" { plan.push_back(WriteStep::Error); }
         else if let Some(n) = t.strip_prefix('a') { plan.push_back(WriteStep::Accept(n.parse().map_err(|_| "bad wplan")?)); }
         else { return Err("bad wplan".to_string()); }
